@@ -536,6 +536,11 @@ Error BaseBuilder::bind(const Label& label) {
   LabelNode* node;
   ASMJIT_PROPAGATE(label_node_of(Out(node), label));
 
+  // The node is already part of the node list when the label was bound before.
+  if (ASMJIT_UNLIKELY(node->is_active())) {
+    return report_error(make_error(Error::kLabelAlreadyBound));
+  }
+
   add_node(node);
   return Error::kOk;
 }
